@@ -293,8 +293,13 @@ func wireRoundTrip(c reqCase, qt dnsmessage.Type) (failure string) {
 	return sameRequest(c.Request, dec)
 }
 
-func TestRequestsSurviveTheWire(t *testing.T) {
-	rapid.Check(t, func(rt *rapid.T) {
+func TestRequestsSurviveTheWire(t *testing.T) { rapid.Check(t, propRequestSurvivesTheWire) }
+
+// FuzzRequestsSurviveTheWire drives the same property from coverage-guided byte strings (thorough tier).
+func FuzzRequestsSurviveTheWire(f *testing.F) { f.Fuzz(rapid.MakeFuzz(propRequestSurvivesTheWire)) }
+
+func propRequestSurvivesTheWire(rt *rapid.T) {
+	{
 		c := drawRequest(rt)
 		qt := qtypes[rapid.IntRange(0, len(qtypes)-1).Draw(rt, "qtype")]
 		c.QType = qt.String()
@@ -320,7 +325,7 @@ func TestRequestsSurviveTheWire(t *testing.T) {
 			vlib.Rec.Violation(map[string]interface{}{"property": "C09", "command": c.Kind, "codec": c.Codec, "domain": c.Domain, "qtype": c.QType, "budget": c.Budget, "payload_len": c.PayLen, "request": fmt.Sprintf("%+v", c.Request), "problem": failure})
 			rt.Fatalf("C09 cmd=%s codec=%s domain=%q qtype=%s budget=%d payload=%d: %s", c.Kind, c.Codec, c.Domain, c.QType, c.Budget, c.PayLen, failure)
 		}
-	})
+	}
 }
 
 // TestEveryBudgetBoundary walks every payload length 0..budget for a set of domains and every codec.
